@@ -466,6 +466,55 @@ def part_B(ctx):
             ctx.fail("correspondence", "model: S_vec[0,:] Sy differs from sigma_0 Vh[0,:] on the witness", dict(case, line=k), key="C06:witness:left-action")
 
 
+def zero_pattern(SD, pattern, rng):
+    """exactly-zero parts of a spectral-matrix sequence: the DC line, a masked band of lines, every line of one channel."""
+    nr, nc, nf = SD.shape
+    SD = SD.copy()
+    if pattern == "dc":
+        SD[:, :, 0] = 0
+    elif pattern == "band":
+        k1 = int(rng.integers(0, nf - 1))
+        SD[:, :, k1 : k1 + int(rng.integers(1, nf - k1))] = 0
+    elif pattern == "channel":
+        ch = int(rng.integers(0, nr))
+        SD[ch, :, :] = 0
+        if nr == nc:
+            SD[:, ch, :] = 0
+    elif pattern == "all":
+        SD[:] = 0
+    return SD
+
+
+def part_B_zero(ctx, corpus_cases=()):
+    """the decomposition is faithful at EVERY line, also where the spectral matrix is exactly zero (stored values 0,
+    stored vectors still unitary) or rank deficient."""
+    rng = ctx.np_rng
+    todo = [(np.array([[[complex(z[0], z[1]) for z in ln] for ln in row] for row in c["SD"]]), c.get("pattern", "corpus")) for c in corpus_cases]
+    pats = ["dc", "band", "channel", "all", "dc", "band", "channel"]
+    for c in range(ctx.n(8, 36)):
+        nf = int(rng.integers(3, 7))
+        if c % 2 == 0:
+            n = int(rng.integers(2, 6))
+            A = dy_c(rng, (n, n + 1, nf))
+            SD = np.stack([A[:, :, k] @ A[:, :, k].conj().T for k in range(nf)], axis=2)
+        else:
+            nr = int(rng.integers(3, 7))
+            SD = dy_c(rng, (nr, int(rng.integers(2, min(nr, 4))), nf))
+        todo.append((zero_pattern(SD, pats[c % len(pats)], rng), pats[c % len(pats)]))
+    for SD, pat in todo:
+        nr, nc, nf = SD.shape
+        case = dict(kind="svalsvec-zero", pattern=pat, SD=[[[cplx(z) for z in ln] for ln in row] for row in SD])
+        ctx.hist("svalsvec-zero", (pat, "square" if nr == nc else "rect"))
+        try:
+            S_val, S_vec = fdd.SD_svalsvec(SD.copy())
+        except Exception as e:  # noqa: BLE001
+            ctx.fail("oracle", "SD_svalsvec raises %s on a %dx%d spectral matrix with exactly-zero lines (%s)" % (type(e).__name__, nr, nc, pat), case,
+                     key="C06:SD_svalsvec:raise")
+            continue
+        ctx.count(case, nontrivial=True)
+        faithful(ctx, SD, np.asarray(S_val), np.asarray(S_vec), case, "SD_svalsvec")
+
+
 # ----------------------------------------------------------------------------------------------------------------------
 # C. through the setup classes
 def record(rng, N, fs, shapes, freqs, noise):
@@ -479,11 +528,14 @@ def record(rng, N, fs, shapes, freqs, noise):
     return x
 
 
-def class_oracle(ctx, res, sel, DF, case, site, fn_on_grid=True):
+def class_oracle(ctx, res, sel, DF, case, site, fn_on_grid=True, check_faithful=True):
     Sy, freq = np.asarray(res.Sy), np.asarray(res.freq)
-    sv = faithful(ctx, Sy, np.asarray(res.S_val), np.asarray(res.S_vec), case, site)
-    if sv is None:
-        return
+    if check_faithful:
+        sv = faithful(ctx, Sy, np.asarray(res.S_val), np.asarray(res.S_vec), case, site)
+        if sv is None:
+            return
+    else:
+        sv = np.array([np.linalg.svd(Sy[:, :, k], compute_uv=False) for k in range(Sy.shape[2])])
     ratio = sv[:, 0] / sv[:, 1]
     Fn, Phi = np.asarray(res.Fn), np.asarray(res.Phi)
     nr = Sy.shape[0]
@@ -1094,6 +1146,207 @@ def part_C_plot(ctx, corpus_specs=()):
         alg_mod.SelFromPlot, sfp_mod.SelFromPlot = saved
 
 
+def part_C_refill(ctx, corpus_specs=()):
+    """first stage of EFDD / FSDD on a sequence of spectral matrices of one shape: the same ndarray refilled in place
+    with another spectrum and analysed again, many fresh arrays analysed in a row, and the classes' mpe after result.Sy
+    was refilled in place.  Every analysis is judged on what the array HOLDS at the time of the call."""
+    import gc
+    from types import SimpleNamespace
+
+    from pyoma2.algorithms import EFDD, EFDD_MS, FSDD
+    from pyoma2.setup import MultiSetup_PreGER, SingleSetup
+
+    rng = ctx.np_rng
+    fs = 32.0
+    kws = (dict(DF2=2.0, sppk=1, npmax=4), dict(DF2=4.0, sppk=1, npmax=2), dict(DF2=1.0, sppk=0, npmax=3))
+
+    def analyse(Sy, freq, method_sd, meth, sel, DF1):
+        for kw in kws:
+            try:
+                return np.asarray(fdd.EFDD_mpe(Sy, freq, 1 / fs, list(sel), method_sd, method=meth, DF1=DF1, **kw)[2])
+            except (IndexError, ValueError, RuntimeError):
+                continue
+        return None
+
+    def judge(held, freq, Phi, sel, DF1, case, site):
+        if Phi is None:
+            ctx.not_judged += 1    # the second stage (C07) cannot fit: the first stage is not observable
+            return
+        ctx.count(case, nontrivial=True)
+        ctx.hist("refill", (site, case["step"].split(" ")[0]))
+        class_oracle(ctx, SimpleNamespace(Sy=held, freq=freq, Fn=None, Phi=Phi, S_val=None, S_vec=None), sel, DF1, case, site,
+                     fn_on_grid=False, check_faithful=False)
+
+    def one(spec):
+        g = np.random.default_rng(int(spec["seed"]))
+        nch, nxseg, method_sd, nrec = int(spec["nch"]), int(spec["nxseg"]), spec["method"], int(spec["nrec"])
+        df = fs / nxseg
+        modes = [float(m) for m in spec["modes"]]
+        sel = [m + o * df for m, o in zip(modes, spec["sel_offset_lines"])]
+        DF1 = float(spec["DF"])
+        recs = []
+        for _ in range(nrec):     # same modes, independent complex shapes: the dominant vectors of two records are far apart
+            shp = dy_c(g, (len(modes), nch), 8, 8.0)
+            shp[:, 0] = 1.0
+            recs.append(record(g, 2048, fs, shp, modes, 0.05))
+        spectra = []
+        for x in recs:
+            freq, Sy = fdd.SD_est(x.T, x.T, 1 / fs, nxseg, method=method_sd, pov=0.5)
+            spectra.append(np.array(Sy, copy=True))
+        freq = np.asarray(freq)
+        base = dict(spec, kind="refill", fs=fs, sel=sel)
+        for meth in ("EFDD", "FSDD"):
+            # (a) one buffer, refilled in place
+            buf = spectra[0].copy()
+            for i in range(nrec):
+                if i:
+                    buf[...] = spectra[i]
+                Phi = analyse(buf, freq, method_sd, meth, sel, DF1)
+                case = dict(base, method_mpe=meth, step="buffer<-record%d" % i + (" (refilled in place)" if i else ""))
+                if not np.array_equal(buf, spectra[i]):
+                    ctx.fail("oracle", "EFDD_mpe modifies the spectral matrix it is given", case, key="C06:EFDD_mpe:args-mutated")
+                    buf[...] = spectra[i]
+                judge(spectra[i], freq, Phi, sel, DF1, case, "EFDD_mpe")
+            del buf
+            # (b) fresh arrays of the same shape, one after the other (the previous one is released first)
+            for i in list(range(nrec)) + list(range(nrec)):
+                arr = spectra[i].copy()
+                Phi = analyse(arr, freq, method_sd, meth, sel, DF1)
+                judge(spectra[i], freq, Phi, sel, DF1, dict(base, method_mpe=meth, step="fresh array record%d" % i), "EFDD_mpe")
+                del arr
+                gc.collect()
+        # (c) the classes: mpe, then result.Sy refilled in place with the spectrum of another record, mpe again
+        for cls in (EFDD, FSDD):
+            ss = SingleSetup(recs[0].copy(), fs=fs)
+            alg = cls(name="a", nxseg=nxseg, method_SD=method_sd)
+            ss.add_algorithms(alg)
+            ss.run_by_name("a")
+            for i in range(min(nrec, 3)):
+                if i:
+                    alg.result.Sy[...] = spectra[i]
+                case = dict(base, cls=cls.__name__, step="result.Sy<-record%d" % i + (" (refilled in place)" if i else ""))
+                Phi = None
+                for kw in kws:
+                    try:
+                        ss.mpe("a", sel_freq=list(sel), DF1=DF1, **kw)
+                        Phi = np.asarray(alg.result.Phi)
+                        break
+                    except (IndexError, ValueError, RuntimeError):
+                        continue
+                judge(spectra[i], np.asarray(alg.result.freq), Phi, sel, DF1, case, cls.__name__)
+        # EFDD_MS: rectangular Sy refilled in place
+        mres = []
+        for i in range(2):
+            shp = dy_c(g, (len(modes), 5), 8, 8.0)
+            shp[:, 0] = 1.0
+            ds = [record(g, 2048, fs, shp[:, cols], modes, 0.05) for cols in ([0, 1, 2], [0, 1, 3, 4])]
+            ms = MultiSetup_PreGER(fs=fs, ref_ind=[[0, 1], [0, 1]], datasets=ds)
+            alg = EFDD_MS(name="m", nxseg=nxseg, method_SD=method_sd)
+            ms.add_algorithms(alg)
+            ms.run_by_name("m")
+            mres.append((ms, alg, np.array(alg.result.Sy, copy=True)))
+        ms, alg, _ = mres[0]
+        for i in range(2):
+            if i:
+                alg.result.Sy[...] = mres[1][2]
+            Phi = None
+            for kw in kws:
+                try:
+                    ms.mpe("m", sel_freq=list(sel), DF1=DF1, **kw)
+                    Phi = np.asarray(alg.result.Phi)
+                    break
+                except (IndexError, ValueError, RuntimeError):
+                    continue
+            judge(mres[i][2], np.asarray(alg.result.freq), Phi, sel, DF1,
+                  dict(base, cls="EFDD_MS", step="result.Sy<-setups%d" % i + (" (refilled in place)" if i else "")), "EFDD_MS")
+
+    for spec in corpus_specs:
+        one(spec)
+    for c in range(ctx.n(2, 8)):
+        nxseg = int(rng.choice([64, 128]))
+        modes = sorted(float(v) for v in rng.choice(np.arange(3, 14), size=2, replace=False))
+        one(dict(nch=int(rng.integers(2, 5)), nxseg=nxseg, method="per" if c % 2 == 0 else "cor", nrec=3 if ctx.quick() else 4, modes=modes,
+                 sel_offset_lines=[int(rng.choice([-1, 0, 1])) for _ in modes], DF=float(fs / nxseg * rng.choice([2.0, 3.0])), seed=int(rng.integers(0, 2**31))))
+
+
+def part_C_constant(ctx, corpus_specs=()):
+    """records with constant channels: the detrended spectrum of such a channel is exactly zero at every line (one
+    constant channel: rank-deficient Sy; all channels constant: Sy = 0 everywhere).  The stored decomposition must be
+    faithful at every line, and FDD must still pick correctly from the remaining channels."""
+    from pyoma2.algorithms import EFDD, FDD, FDD_MS
+    from pyoma2.setup import MultiSetup_PreGER, SingleSetup
+
+    rng = ctx.np_rng
+    fs = 32.0
+
+    def one(spec):
+        g = np.random.default_rng(int(spec["seed"]))
+        nch, nxseg, method = int(spec["nch"]), int(spec["nxseg"]), spec["method"]
+        df = fs / nxseg
+        modes = [float(m) for m in spec["modes"]]
+        shp = dy_c(g, (len(modes), nch), 8, 8.0)
+        shp[:, 0] = 1.0
+        x = record(g, 2048, fs, shp, modes, 0.05)
+        for ch, val in zip(spec["constant_channels"], spec["constants"]):
+            x[:, int(ch)] = float(val)
+        live = nch - len(spec["constant_channels"])
+        base = dict(spec, kind="constant-channels", fs=fs)
+        for cls in (FDD, EFDD):
+            ss = SingleSetup(x.copy(), fs=fs)
+            alg = cls(name="a", nxseg=nxseg, method_SD=method)
+            ss.add_algorithms(alg)
+            case = dict(base, cls=cls.__name__)
+            try:
+                ss.run_by_name("a")
+            except Exception as e:  # noqa: BLE001
+                ctx.fail("oracle", "%s.run raises %s on a record with constant channels %s" % (cls.__name__, type(e).__name__, spec["constant_channels"]),
+                         case, key="C06:%s:raise" % cls.__name__)
+                continue
+            ctx.count(case, nontrivial=True)
+            ctx.hist("constant-channels", (cls.__name__, "%d of %d" % (nch - live, nch)))
+            res = alg.result
+            if faithful(ctx, np.asarray(res.Sy), np.asarray(res.S_val), np.asarray(res.S_vec), case, cls.__name__) is None:
+                continue
+            if cls is FDD and live >= 3:       # a second non-zero singular value exists at every line
+                sel, DF = [m + df for m in modes], 3 * df
+                try:
+                    ss.mpe("a", sel_freq=list(sel), DF=DF)
+                except Exception as e:  # noqa: BLE001
+                    ctx.fail("oracle", "FDD.mpe raises %s on a record with a constant channel" % type(e).__name__, case, key="C06:FDD:raise")
+                    continue
+                class_oracle(ctx, res, sel, DF, dict(case, sel=sel, DF=DF), "FDD")
+        if spec.get("multi") and live >= 2:    # a constant MOVING sensor in the second setup
+            shp5 = dy_c(g, (len(modes), 5), 8, 8.0)
+            shp5[:, 0] = 1.0
+            ds = [record(g, 2048, fs, shp5[:, cols], modes, 0.05) for cols in ([0, 1, 2], [0, 1, 3, 4])]
+            ds[1][:, 3] = float(spec["constants"][0])
+            ms = MultiSetup_PreGER(fs=fs, ref_ind=[[0, 1], [0, 1]], datasets=ds)
+            alg = FDD_MS(name="m", nxseg=nxseg, method_SD=method)
+            ms.add_algorithms(alg)
+            case = dict(base, cls="FDD_MS")
+            try:
+                ms.run_by_name("m")
+                sel, DF = [m + df for m in modes], 3 * df
+                ms.mpe("m", sel_freq=list(sel), DF=DF)
+            except Exception as e:  # noqa: BLE001
+                ctx.fail("oracle", "FDD_MS raises %s with a constant moving sensor" % type(e).__name__, case, key="C06:FDD_MS:raise")
+                return
+            ctx.count(case, nontrivial=True)
+            ctx.hist("constant-channels", ("FDD_MS", "moving sensor"))
+            class_oracle(ctx, alg.result, sel, DF, dict(case, sel=sel, DF=DF), "FDD_MS")
+
+    for spec in corpus_specs:
+        one(spec)
+    for c in range(ctx.n(3, 10)):
+        nch = int(rng.integers(2, 6))
+        allc = c % 3 == 1
+        chans = list(range(nch)) if allc else [int(rng.integers(0, nch))]
+        modes = sorted(float(v) for v in rng.choice(np.arange(3, 14), size=2, replace=False))
+        one(dict(nch=nch, nxseg=int(rng.choice([64, 128])), method="per" if c % 2 == 0 else "cor", modes=modes, constant_channels=chans,
+                 constants=[float(v) for v in rng.choice([0.0, 2.5, -1.0, 0.375, 16.0], size=len(chans))], multi=bool(c % 3 == 0),
+                 seed=int(rng.integers(0, 2**31))))
+
+
 # ----------------------------------------------------------------------------------------------------------------------
 def run(ctx):
     rng = ctx.np_rng
@@ -1127,6 +1380,9 @@ def run(ctx):
         cases.append(gen_mpe_case(rng, ctx, malformed=(k % 7 == 3)))
     corpus_nb = [c for c in cases[:ncorp] if c and c.get("kind") == "narrow-band"]
     corpus_plot = [c for c in cases[:ncorp] if c and c.get("kind") == "plot-path"]
+    corpus_zero = [c for c in cases[:ncorp] if c and c.get("kind") == "svalsvec-zero"]
+    corpus_refill = [c for c in cases[:ncorp] if c and c.get("kind") == "refill"]
+    corpus_const = [c for c in cases[:ncorp] if c and c.get("kind") == "constant-channels"]
     ncorp = len([c for c in cases[:ncorp] if c and "freq" in c])
     cases = [c for c in cases if c and "freq" in c]
     # scale families: base table (sigma1 peaks away from the ratio peak, no ties) and the same table times 2^k
@@ -1198,9 +1454,12 @@ def run(ctx):
                          small, key=key)
     ctx.extra["t_A"] = round(time.time() - ctx.t0, 1)
     part_B(ctx)
+    part_B_zero(ctx, corpus_zero)
     ctx.extra["t_AB"] = round(time.time() - ctx.t0, 1)
     part_C(ctx, corpus_nb)
     part_C_scale(ctx)
     part_C_forms(ctx)
     part_C_plot(ctx, corpus_plot)
+    part_C_refill(ctx, corpus_refill)
+    part_C_constant(ctx, corpus_const)
     ctx.extra["t_ABC"] = round(time.time() - ctx.t0, 1)
